@@ -96,6 +96,7 @@ def main(argv=None):
     pool.terminate()
 
   known = load_known(prop)
+  bounded_sym = {"obligations": 0, "units": {}}
   violations = []     # (unit, obligation, replay path, confirmed)
   undecided = []
   errors = []
@@ -145,6 +146,10 @@ def main(argv=None):
         print("  [%s] %s %s %s t=%s inputs=%s" % (u.name, ob["name"], ob["status"], ob.get("detail"), ob.get("time"),
                                               json.dumps(ob.get("inputs"))[:300]))
       full = "%s/%s" % (u.name, ob["name"])
+      if ob["status"] == "proved" and u.bound:
+        bounded_sym["obligations"] += 1
+        bounded_sym["units"].setdefault(u.name, u.bound)
+        continue
       if ob["status"] == "proved":
         total_obl += 1
         discharged += 1
@@ -284,7 +289,7 @@ def main(argv=None):
 
   write_evidence(prop, tier, seed, wall, total_obl, discharged, functions, axioms, solver_time, solver_queries,
                  solver_max, backends, per_unit, samples_out, sample_stats, violations, undecided, errors,
-                 known_hits, units, standin_out)
+                 known_hits, units, standin_out, bounded_sym)
   print("property=%s tier=%s units=%d obligations=%d discharged=%d violations=%d undecided=%d errors=%d "
         "known=%d wall=%.1fs" % (prop, tier, len(units), total_obl, discharged, len(violations), len(undecided),
                                  len(errors), len(known_hits), wall))
@@ -350,7 +355,7 @@ def replay_file(prop, path):
 
 def write_evidence(prop, tier, seed, wall, total_obl, discharged, functions, axioms, solver_time, solver_queries,
                    solver_max, backends, per_unit, samples_out, sample_stats, violations, undecided, errors,
-                   known_hits, units, standin_out=()):
+                   known_hits, units, standin_out=(), bounded_sym=None):
   notdec = []
   p = os.path.join(VERIF, "not_decided.json")
   if os.path.exists(p):
@@ -369,6 +374,7 @@ def write_evidence(prop, tier, seed, wall, total_obl, discharged, functions, axi
       "slowest_query_s": solver_max[0], "slowest_query": solver_max[1],
       "native_cross_check": sample_stats,
       "bounded_standins": list(standin_out),
+      "bounded_symbolic_units": bounded_sym or {},
       "samples": samples_out or [{"note": "no proved obligation sampled"}],
       "undecided": ["%s/%s: %s" % x for x in undecided],
       "checker_errors": errors,
